@@ -313,10 +313,9 @@ fn create_locales_enum(
     let constant_names_ident = locales
         .iter()
         .map(|key| {
-            (
-                key,
-                format_ident!("{}_LANGID", key.name.to_uppercase().replace('-', "_")),
-            )
+            // built from the ident: it is the name with '-' replaced by '_', and a raw ident (`r#..`) can be unrawed
+            let name = syn::ext::IdentExt::unraw(&*key.ident).to_string();
+            (key, format_ident!("{}_LANGID", name.to_uppercase()))
         })
         .collect::<Vec<_>>();
 
